@@ -4,7 +4,7 @@
    model is run against the real library on every run (labels.Parse on arbitrary texts, nodeSelectorKey byte for byte), and the
    correspondence check still compares the real nodeSelectorKey + matchCIDRLabels with [match_reqs] applied to the
    selector's OWN requirements. *)
-From NIPAM Require Import Sel Lbl Alloc Sel_proofs Lbl_proofs.
+From NIPAM Require Import Sel Lbl Alloc Sys Sel_proofs Lbl_proofs Keys_proofs.
 Open Scope N_scope.
 
 Theorem C17_match_iff_all_requirements_hold :
@@ -71,6 +71,34 @@ Proof. exact d23_not_read_back. Qed.
 Example C17_round_trip_nonvacuous :
   selector_key [mkReq [122] OpIn [[98]; []; [97]]; mkReq kw_in OpNotIn [kw_in]; mkReq [97] OpGt [[53]]; mkReq [98] OpDoesNotExist []] <> None.
 Proof. exact round_trip_nonvacuous. Qed.
+
+(* ---- the closed loop: in every history in which ClusterCIDR objects carry the key nodeSelectorKey computes from their selector,
+   every key of the controller's map is read back by labels.Parse with the meaning of a selector it was computed from;
+   matchCIDRLabels fails on no key and for no node, and collecting the ClusterCIDRs that match a node never fails on a key
+   (what D23 caused for every node of the cluster) ---- *)
+Theorem C17_every_key_is_read_back_in_every_history :
+  forall lab ops m, Forall op_keys_computed ops -> w_ctl (run sel_parse lab init_world ops) = Some m ->
+    (forall k l, In (k, l) m -> exists rs, selector_key rs = Some k /\ forall ls, match_key ls k = Some (match_reqs ls rs)) /\
+    (forall ls occ, collect_items sel_parse lab ls occ m <> None) /\
+    (forall ls occ, ordered_matching sel_parse lab m ls occ <> Err EBadKey).
+Proof. exact every_key_is_read_back_in_every_history. Qed.
+Print Assumptions C17_every_key_is_read_back_in_every_history.
+
+(* the hypothesis is met by every object whose key is computed from its selector, and by a concrete history *)
+Theorem C17_computed_keys_meet_the_hypothesis :
+  forall name v4 v6 hb rs fins del gen rv rest, op_keys_computed (UCreateCC (mkCCObj name v4 v6 hb (selector_key rs) fins del gen rv rest)).
+Proof. intros. apply computed_key_ok. Qed.
+Example C17_history_nonvacuous :
+  let lab0 : label_oracle := fun k => [cl k] in
+  let rs := [mkReq [122; 111; 110; 101] OpIn [[97]]; mkReq [116; 105; 101; 114] OpDoesNotExist []] in
+  let o := mkCCObj [99; 49] (FOk (mkCidr V4 167772160 24)) FEmpty 4%Z (selector_key rs) [] false 1 0 0 in
+  let ops := [UCreateCC o; Construct None None [] []; StartInformers; ProcCC UOk] in
+  Forall op_keys_computed ops /\
+  match w_ctl (run sel_parse lab0 init_world ops) with
+  | Some m => map fst m = [[33; 116; 105; 101; 114; 44; 122; 111; 110; 101; 32; 105; 110; 32; 40; 97; 41]]
+  | None => False
+  end.
+Proof. exact keys_nonvacuous. Qed.
 
 Theorem C17_unrepresentable_selector_rejected :
   forall m o term boot out, o_selkey o = None -> create_cluster_cidr m o term boot out = (m, Err ESelector, []).
